@@ -8,7 +8,7 @@ use stellar_tokens::rwa::compliance::ComplianceHook;
 use crate::obs;
 use crate::report::Report;
 use crate::rng::Rng;
-use crate::world::{invoke, tag, Fail, World};
+use crate::world::{Must, invoke, tag, Fail, World};
 use crate::Cfg;
 use soroban_sdk::{Address, Val, Vec as SVec};
 use std::collections::BTreeMap;
@@ -56,17 +56,17 @@ impl Rwa {
         let n = self.u.len();
         let mut s = RState::default();
         for i in 0..n {
-            s.bal.push(invoke(e, &self.tok, "balance", args!(e, self.u[i])).unwrap());
-            s.frozen.push(invoke(e, &self.tok, "get_frozen_tokens", args!(e, self.u[i])).unwrap());
-            s.addr_frozen.push(invoke(e, &self.tok, "is_frozen", args!(e, self.u[i])).unwrap());
+            s.bal.push(invoke(e, &self.tok, "balance", args!(e, self.u[i])).must("balance"));
+            s.frozen.push(invoke(e, &self.tok, "get_frozen_tokens", args!(e, self.u[i])).must("get_frozen_tokens"));
+            s.addr_frozen.push(invoke(e, &self.tok, "is_frozen", args!(e, self.u[i])).must("is_frozen"));
         }
         for o in 0..n {
             for sp in 0..n {
-                s.allow.push(invoke(e, &self.tok, "allowance", args!(e, self.u[o], self.u[sp])).unwrap());
+                s.allow.push(invoke(e, &self.tok, "allowance", args!(e, self.u[o], self.u[sp])).must("allowance"));
             }
         }
-        s.supply = invoke(e, &self.tok, "total_supply", args!(e)).unwrap();
-        s.paused = invoke(e, &self.tok, "paused", args!(e)).unwrap();
+        s.supply = invoke(e, &self.tok, "total_supply", args!(e)).must("total_supply");
+        s.paused = invoke(e, &self.tok, "paused", args!(e)).must("paused");
         s
     }
 }
